@@ -26,6 +26,7 @@ def check(run):
                                       VERIF_MAXFANS=(2 + i % 2) if run.quick() else 4, **({'VERIF_EXACTFANS': '1'} if run.quick() else {})),
                        'c16serial', timeout=3000)
     run.sample_from(serial[0], 2)
+    dmnfam.conformance(run, serial)
     run.validate('Monitor_Daemon', dmnfam.monitor_cfg(INV, []), serial, 'mon')
     par = run.drive('TestDriveC16', 8, lambda i: dict(VERIF_SEED=run.seed * 1000 + 100 + i, VERIF_N=run.pick(4, 40), VERIF_PARALLEL=1,
                                                       VERIF_MAXFANS=4), 'c16par', timeout=3000)
